@@ -1,6 +1,8 @@
 import OV.Model.C14History
 import OV.Lemmas.C14History
 import OV.Gen.C14Stash
+import OV.Gen.C14Globals
+import OV.Lemmas.C14Globals
 /-!
 # C14 — results are deterministic and independent of what the process did before
 
@@ -272,6 +274,45 @@ example : (callProto false (runCalls false (fun _ => [("producer_name", 1)])
       [(⟨.x, 0⟩, [("producer_name", 7)]), (⟨.const 1, 0⟩, [("ir_version", 9)])]) ⟨.const 1, 0⟩ [("doc_string", 3)]).2
     = (.const 1, [("doc_string", 3), ("producer_name", 1)]) := by decide
 
+/-- **Header of the emitted model**: the opset imports the function graph declares are kept, in
+order, as a prefix of the model's `opset_import` — for every list of called functions and every
+`opset_version` argument. -/
+theorem model_header_keeps_graph_imports (g : List (String × Nat)) (fs : List SubFn) (kw : Option Nat)
+    (latest : Nat) : ∃ extra, modelOpsetImports g fs kw latest = g ++ extra := by
+  unfold modelOpsetImports
+  obtain ⟨e, he⟩ := addFuncImports_keeps g fs
+  simp only
+  split
+  · exact ⟨e, he⟩
+  · exact ⟨e ++ [("", kw.getD latest)], by rw [he, List.append_assoc]⟩
+
+/-- … the standard domain is always imported … -/
+theorem model_header_has_standard_opset (g : List (String × Nat)) (fs : List SubFn) (kw : Option Nat)
+    (latest : Nat) : hasKey (modelOpsetImports g fs kw latest) "" = true := by
+  unfold modelOpsetImports
+  simp only
+  split
+  · assumption
+  · rename_i h
+    unfold hasKey at h ⊢
+    cases hl : (addFuncImports g fs).lookup "" with
+    | some v => simp [hl] at h
+    | none =>
+      rw [List.lookup_append, hl]
+      simp [List.lookup]
+
+/-- … and an `opset_version=` argument never overrides a standard-opset version the graph already
+declares (it is only a default for graphs that use no standard operator). -/
+theorem model_header_opset_version_is_default_only (g : List (String × Nat)) (fs : List SubFn)
+    (kw : Option Nat) (latest v : Nat) (h : g.lookup "" = some v) :
+    (modelOpsetImports g fs kw latest).lookup "" = some v := by
+  obtain ⟨e, he⟩ := model_header_keeps_graph_imports g fs kw latest
+  rw [he]
+  exact lookup_append_of_some h
+
+example : modelHeader [("this", 1)] [⟨"my.dom", 2, some 18⟩, ⟨"this", 1, some 17⟩] (some 15) none 23
+    [(18, 8), (17, 8), (15, 7)] 11 = ([("this", 1), ("my.dom", 2), ("", 18)], 10) := by decide
+
 /-- The proto computes what the Python body computes under the decoration-time globals. -/
 theorem proto_is_decoration_time_semantics (g : Globals) (body : SExp) (x : Val) :
     (toProto (decorate g body)).1.eval x = eagerCall g (decorate g body) x :=
@@ -342,6 +383,93 @@ theorem translate_seed_and_history_independent {I O : Type} (w : World I O) (σ 
     (st : NameState) (ks : List OpsetKey) (l₁ l₂ : List String) (h : l₁.Perm l₂) :
     (step w σ (ProcOp.translate st ks l₁ : ProcOp I O)).2 = (step w σ' (ProcOp.translate st ks l₂)).2 := by
   simp only [step, internAll_fields, sorted_perm_invariant st l₁ l₂ h]
+
+/-! ## Every process-wide mutable object on the property's path (generated tables) -/
+
+/-- **Table theorem, re-read from the source on every run.**  Every module-level name or class attribute
+bound to a mutable object, every `global` target and every functools cache in
+`onnxscript/{_internal, rewriter, rewriter/rules/{common,fusion}, optimizer, version_converter, ir}`,
+`onnx_types.py`, `values.py`, `utils/metadata_merger.py` is written after import only in a disciplined way:
+never (most rows), as a memo whose key mentions every parameter the function uses, by a context manager
+that restores it in `finally`, by a public `set_*` function, by `register` (import time only, next
+theorem), while a class statement executes, or as a field of an entry-reset object.  One exception, named
+here: `ANY_VALUE._uses` grows whenever a pattern mentions `ANY_VALUE`, but `ValuePattern.uses()` has no
+reader in the rewriter (write-only). -/
+theorem globals_disciplined :
+    ∀ r ∈ OV.Gen.C14Globals.globalRows, r.name ≠ "_pattern_ir:ANY_VALUE" → r.ok = true := by
+  decide +kernel
+
+/-- registries (`optimizer` partial evaluators, `version_converter` adapters, evaluator python ops) are
+extended only by decorators executed at import time: no `register(...)` call sits inside a function body -/
+theorem register_import_time_only : OV.Gen.C14Globals.registerCallsInFunctions = [] := by decide
+
+/-- Every class whose objects outlive one operation — the matcher held by each rule, the fold pass, the
+rewrite pass, rule sets, rules, patterns, the version-conversion pass — reads, in the method that starts
+an operation (followed through `self.m()` calls) and in the helpers other modules call meanwhile, only
+fields assigned by `__init__` or assigned earlier by this very call.  Exception, named here: `Converter`
+(`_castable`, `default_opset_` survive in a reused object; `script()` builds a fresh one:
+`script_translate_fresh`). -/
+theorem entry_objects_reset :
+    ∀ e ∈ OV.Gen.C14Globals.entryRows, e.name ≠ "Converter" → e.ok = true := by
+  decide +kernel
+
+/-- the table is not vacuous: the matcher and the fold pass do carry per-call fields -/
+example : (OV.Gen.C14Globals.entryRows.filter (fun e => !e.mayWrite.isEmpty && e.name != "Converter")).length ≥ 2 := by
+  decide +kernel
+
+/-- Every iteration over a set-typed expression on that path feeds an order-insensitive consumer
+(`sorted`, `set`/`frozenset`, `set.update`, a set comprehension, `any/all/len/min/max/sum`), except the
+sites named here: `_translate_nested_function_def` iterates the outer-scope variable set into a list that
+is only checked element by element (the order decides which of several errors is raised first). -/
+theorem set_iteration_sanctioned :
+    ∀ s ∈ OV.Gen.C14Globals.setIterSites, s.orderSensitive = true →
+      s.site = "_internal/converter.py:Converter._translate_nested_function_def" := by
+  decide +kernel
+
+example : (OV.Gen.C14Globals.setIterSites.filter (fun s => s.sink == "call:sorted")).length ≥ 3 := by
+  decide +kernel
+
+/-- **A memo keyed by every argument the value depends on is invisible**: after any history of lookups
+(any keys, any unkeyed arguments) a lookup returns what a fresh computation returns.  (`Opset.cache`,
+`_tensor_type_shape_cache`.) -/
+theorem memo_complete_key_history_independent {K E V : Type} [BEq K] [LawfulBEq K] (f : K → E → V)
+    (hcomplete : ∀ k e e', f k e = f k e') (H : List (K × E)) (k : K) (e : E) :
+    (memoGet f (memoRun f [] H) k e).2 = f k e :=
+  (memoGet_sound f hcomplete _ (memoRun_sound f hcomplete [] (fun _ _ h => by simp at h) H) k e).1
+
+/-- A memo whose key omits an argument the value depends on is history dependent (seeded change C14-5:
+`load_op` memoised by `(domain, op)` without the opset version; `Opset.cache` keyed without version). -/
+theorem memo_incomplete_key_refuted :
+    ¬ ∀ (f : String → Nat → Nat) (H : List (String × Nat)) (k : String) (e : Nat),
+        (memoGet f (memoRun f [] H) k e).2 = f k e := by
+  intro h
+  have := h (fun _ v => v) [("Squeeze", 13)] "Squeeze" 11
+  revert this; decide
+
+/-- **An object whose entry method assigns before it reads is history independent**: for every row
+obeying `EntryRow.ok`, every behaviour respecting the row, every history of earlier calls (completed or
+not — a call's assignments are simply whatever it performed), the result of a call equals the result on
+the object as `__init__` left it. -/
+theorem entry_object_history_independent {I O : Type} (e : EntryRow) (b : ObjBeh I O)
+    (hok : e.ok = true) (hr : ObjRespects e b) (s₀ : OState) (H : List I) (i : I) :
+    (b.call (objRun b s₀ H) i).1 = (b.call s₀ i).1 := by
+  apply hr.reads
+  have hc := objRun_consts hr s₀ H
+  unfold EntryRow.ok at hok
+  simp only [Bool.and_eq_true, List.all_eq_true, List.contains_iff_mem] at hok
+  intro f hf
+  rcases List.mem_append.1 hf with hf | hf
+  · rcases List.mem_append.1 hf with hf | hf
+    · exact (hc f (hok.1.2 f hf)).symm
+    · exact (hc f (hok.2 f hf)).symm
+  · exact (hc f hf).symm
+
+/-- … and the hypothesis is needed: an object whose call returns a field it assigns only sometimes. -/
+theorem entry_object_undisciplined_refuted :
+    ∃ (b : ObjBeh Nat Int) (s₀ : OState) (H : List Nat) (i : Nat),
+      (b.call (objRun b s₀ H) i).1 ≠ (b.call s₀ i).1 := by
+  refine ⟨⟨fun s i => ((s "_m").getD 0, if i = 0 then [] else [("_m", (i : Int))])⟩, fun _ => none, [5], 0, ?_⟩
+  decide
 
 /-! ## The whole process -/
 
